@@ -48,9 +48,17 @@ def share_encoder_parameters(
     :param others: The other networks whose encoder parameters will be pinned to the policy.
     :type others: EvolvableNetwork
     """
-    assert isinstance(policy, EvolvableNetwork), "Policy must be an EvolvableNetwork"
+    # NOTE: Since Python 3.12 isinstance() against a runtime-checkable Protocol looks attributes
+    # up statically and no longer sees sub-modules registered through nn.Module.__setattr__,
+    # so we check for the encoder / head_net attributes directly
+    def _is_evolvable_network(net: Any) -> bool:
+        return isinstance(net, Module) and all(
+            hasattr(net, attr) for attr in ("encoder", "head_net")
+        )
+
+    assert _is_evolvable_network(policy), "Policy must be an EvolvableNetwork"
     assert all(
-        isinstance(other, EvolvableNetwork) for other in others
+        _is_evolvable_network(other) for other in others
     ), "All others must be EvolvableNetwork"
 
     # detaching encoder parameters from computation graph reduces
